@@ -539,6 +539,15 @@ func genLex(r *rand.Rand, tier string, st *Stats) []Case {
 		cases = append(cases, tokCase(fmt.Sprintf("unik%d", i), kw, "unicode"))
 	}
 	st.Counts["unicode-sources"] = nu
+	// every word of the keyword table, alone and between neighbours, in lower, UPPER and Capitalised form, plus the
+	// word with one letter appended / removed (must be an identifier): the whole table through the real lexer
+	for i, w := range keywordWords {
+		for j, form := range []string{w, strings.ToUpper(w), strings.ToUpper(w[:1]) + w[1:], w + "x", w[:len(w)-1] + "_"} {
+			cases = append(cases, tokCase(fmt.Sprintf("kw%d.%d", i, j), form, "keyword-table"))
+			cases = append(cases, tokCase(fmt.Sprintf("kw%d.%dc", i, j), "'a' "+form+" (x)", "keyword-table"))
+		}
+	}
+	st.Counts["keyword-table-words"] = len(keywordWords)
 	// sources containing NUL bytes (the lexer treats NUL as end of input: quirk, modelled)
 	nn := sizes(tier, 300, 30000)
 	for i := 0; i < nn; i++ {
